@@ -871,7 +871,6 @@ func caseChild(arg string) string {
 	thorough := f[1] == "thorough"
 	first, _ := strconv.Atoi(f[2])
 	count, _ := strconv.Atoi(f[3])
-	var sb strings.Builder
 	for no := first; no < first+count; no++ {
 		var t Transcript
 		if no >= 1000000 {
@@ -883,15 +882,16 @@ func caseChild(arg string) string {
 			r := CaseRand(seed, no)
 			runCase(&t, generate(r, thorough && r.Chance(1, 8)))
 		}
-		fmt.Fprintf(&sb, "CASE\t%d\n%s", no, t.String())
+		// printed as soon as the case is done: see blocks.go
+		fmt.Printf("CASE\t%d\n%sEND\t%d\n", no, t.String(), no)
 	}
-	return sb.String()
+	return ""
 }
 
 func main() {
 	hx.RegisterChild("c17case", caseChild)
 	// one long-lived child per worker: see build()
-	blocks := &Blocks{Name: "c17case", Size: 100, Workers: 8, Ahead: 8, Procs: 2, Timeout: 1500 * time.Second}
+	blocks := &Blocks{Name: "c17case", Size: 100, Workers: 8, Ahead: 8, Procs: 2, Base: 600 * time.Second, PerCase: 5 * time.Second}
 	run := func(c *hx.Ctx) {
 		if c.Thorough() {
 			blocks.Size = 750
